@@ -1,6 +1,7 @@
 SPECIFICATION Spec
 CONSTANTS
   Nows = {0,1,2,3,4,5,6,7,8,9,10,11,12,13,14,15,16,17,18,19,20}
+  Pads = {0, 2, 9, 12}
   Kinds = {"ssoRoot", "ssoAssert", "logoutReq", "logoutResp"}
 INVARIANTS InvC02 InvC04 InvC10 Emit
 PROPERTIES Frozen Terminates
